@@ -116,6 +116,26 @@ def run_forward(chk, e):
         "AssignmentAnalysis.__init__:all_vars>=ass_before_entry+every-assigned-variable", e.explore(t_init), post_init,
         func=f"{MOD}:AssignmentAnalysis.__init__"))
 
+    # the same statement on concrete block tables (1..3 blocks, arguments that no block re-assigns):
+    # decides formulations of the union the symbolic collections cannot express
+    def init_concrete():
+        import itertools
+        tables = [[{"a"}], [set(), {"x", "y"}], [{"x"}, {"y"}, {"x", "z"}], [set()]]
+        entries = [set(), {"p"}, {"p", "x"}, {"p", "q"}]
+        for ti, tab in enumerate(tables):
+            for abe in entries:
+                def t(it, tab=tab, abe=abe):
+                    AA = it.lookup_global(e.module(MOD), "AssignmentAnalysis")
+                    VS = it.lookup_global(e.module("guppylang_internals.cfg.bb"), "VariableStats")
+                    stats = {SObj(ClassVal("BB", builtin=True), {"idx": i}): it.call(VS, [{v: f"NODE-{v}" for v in sorted(asg)}, {}], {}) for i, asg in enumerate(tab)}
+                    a = it.call(AA, [stats, set(abe), set(abe) | {"m"}, True], {})
+                    return it.getattr(a, "all_vars")
+                want = set(abe).union(*tab)
+                chk.prove_paths(f"AssignmentAnalysis.__init__[blocks assign {[sorted(x) for x in tab]}, before entry {sorted(abe)}]:all_vars>=ass_before_entry+every-assigned-variable",
+                                e.explore(t), lambda p, want=want: z3.BoolVal(p.kind == "return" and isinstance(p.value, (set, frozenset)) and want <= set(p.value)),
+                                func=f"{MOD}:AssignmentAnalysis.__init__", replay=lambda m_: {"script": REPLAY_INIT, "input": {}})
+    chk.section("assignment-init-concrete", init_concrete)
+
     # ---- frame + value of the domain functions for 1..3 concrete arguments: the fixpoint proof
     # below treats the values stored in vals_before / vals_after as immutable; that is sound only if
     # join / apply_bb / eq leave the sets they are handed (cached values of other blocks) unchanged
@@ -201,3 +221,28 @@ def run_forward(chk, e):
                    any(p.kind == "cut" for p in paths) and any(p.kind == "return" for p in paths), str([p.kind for p in paths]), kind="reachability")
     for incl in (True, False):
         chk.section(f"forward-{incl}", lambda incl=incl: forward(incl))
+
+
+REPLAY_INIT = r'''
+import tempfile, importlib.util, os, sys, shutil
+from guppylang_internals.cfg.cfg import CFG
+from guppylang_internals.cfg.bb import BB, VariableStats
+# a loop that reads a function argument: entry -> head <-> body, head -> exit; `a` is assigned before the
+# entry and by no block, `c` is assigned in the body
+cfg = CFG()
+entry, head, body, exit_ = cfg.new_bb(), cfg.new_bb(), cfg.new_bb(), cfg.new_bb()
+cfg.entry_bb, cfg.exit_bb = entry, exit_
+cfg.link(entry, head); cfg.link(head, exit_); cfg.link(head, body); cfg.link(body, head)
+for b in cfg.bbs:
+    b._vars = VariableStats({}, {})
+body._vars = VariableStats({"c": None}, {"a": None})
+for b in cfg.bbs:
+    b.compute_variable_stats = (lambda b=b: b._vars)
+try:
+    cfg.analyze({"a"}, {"a"}, [])
+    got = {b.idx: sorted(cfg.ass_before[b]) for b in cfg.bbs}
+    out = {"violates": "a" not in cfg.ass_before[body] or "a" not in cfg.ass_before[exit_], "ass_before": got, "required": "`a` (assigned before the entry) is definitely assigned in every block"}
+except Exception as ex:
+    out = {"violates": False, "error": repr(ex)[:300]}
+print(json.dumps(out))
+'''
